@@ -3,7 +3,7 @@ exercises some target functions; EXPECT[scenario] lists the traces that must be 
 (qualname, {param: type}, return_type | ABSENT, yield_type | ABSENT)."""
 import asyncio
 import functools
-from typing import Iterator, List, Optional, Union
+from typing import Callable, Iterator, List, Optional, Union
 
 ABSENT = "<absent>"
 NoneType = type(None)
@@ -169,6 +169,39 @@ def render(n):
     return "r" * n
 
 
+def make_inner():
+    def inner(v):
+        return v
+    return inner
+
+
+def scn_negative_cache():
+    make_inner()(1)          # not resolvable (no name anywhere refers to the closure): not logged
+    g = make_inner()
+    g("a")                   # the same code, now resolvable through the caller's locals: logged
+
+
+def _deco2(f):
+    @functools.wraps(f)
+    def wrapper2(*args, **kwargs):
+        return f(*args, **kwargs)
+    return wrapper2
+
+
+@_deco2
+def shared_a(a):
+    return 1
+
+
+@_deco2
+def shared_b(b):
+    return "s"
+
+
+def scn_shared_wrapper_code():
+    shared_b(2)              # shared_a is never called
+
+
 def scn_generated_inits():
     Point(1)
     Label("origin")
@@ -274,6 +307,9 @@ EXPECT = {
     "scn_coroutine": [T("co_inner", {"x": int}, int), T("co_outer", {"x": int}, int)],
     "scn_coroutine_rebinds": [T("co_rebind", {"key": str, "retries": int}, bytes)],
     "scn_equal_code": [T("Point.__init__", {"self": "Point", "x": int}, NoneType), T("Pixel.__init__", {"self": "Pixel", "x": int}, NoneType), T("Point.__init__", {"self": "Point", "x": int}, NoneType)],
+    "scn_negative_cache": [T("make_inner", {}, Callable), T("make_inner", {}, Callable), T("make_inner.<locals>.inner", {"v": str}, str)],
+    # the wrapper and the wrapped function both run; both belong to shared_b (the wrapper is published under that name), nothing to shared_a
+    "scn_shared_wrapper_code": [T("shared_b", {"b": int}, str)],
     "scn_generated_inits": [T("Point.__init__", {"self": "Point", "x": int}, NoneType), T("Label.__init__", {"self": "Label", "text": str}, NoneType)],
     # the shim itself is not resolvable by name (bound as `render`, named `shim`): only the wrapped function is logged
     "scn_bare_wrapper": [T("render", {"n": int}, str)],
